@@ -28,6 +28,8 @@ type SFile struct {
 	// "definitions" block holding decoys under the same names; "#/$defs/X" must
 	// keep denoting the real ones. Refs into such a file are spelled "#/$defs/".
 	BothDefs bool `json:"both_defs,omitempty"`
+	// ClashDef: the definition named like another definition's inline type (KF-C10-4 scope)
+	ClashDef string `json:"clash_def,omitempty"`
 	// CRLF (YAML only): saved with CRLF line ends and block scalars for multi-line text
 	CRLF bool `json:"crlf,omitempty"`
 	// RootObj: the root is {"type":"object", properties...} and carries marker mk_<tag>.
@@ -743,6 +745,7 @@ func (g *genCtx) genDoc() {
 						}
 						clash := d0 + strings.ToUpper(f.Tag[:1]) + f.Tag[1:] + "P" + strings.TrimPrefix(kv.K, f.Tag+"p")
 						f.Defs = append(f.Defs, clash)
+						f.ClashDef = clash
 						defs = append(defs, KV{clash, Obj{{"type", "object"}, {"properties", Obj{{"mk_" + f.Tag + "_" + clash, Obj{{"type", "string"}}}, {"clashonly", Obj{{"type", "boolean"}}}}}}})
 						g.nprop++
 						nameClash = &RefUse{FromTag: f.Tag, Prop: fmt.Sprintf("%sr%d", f.Tag, g.nprop), Ref: "#/$defs/" + clash, ToTag: f.Tag, ToDef: clash, Spelling: "nameclash", LocalOnly: true}
